@@ -126,7 +126,13 @@ def run(pid, tier, seed):
                             rec["case"]["repeat"], rec["case"]["workers"], json.dumps(rec["obs"])[:400]), rec)
         for prob in e2e["problems"]:
             v.violation("e2e:" + prob["kind"], json.dumps(prob), prob)
-        cov = {"states": states, "transitions": trans, "traces_validated_against_impl": len(cases) + e2e["runs"],
+        # responder side: a request retired between a worker's pop and the manager's start must give its work slot back
+        import resp
+        rcov, rassume = resp.collect("C21", tier, seed, v)
+        states += rcov["states"]
+        trans += rcov["transitions"]
+        v.cov["responder_scripts"] = {k: rcov[k] for k in rcov if k not in ("samples", "rule")}
+        cov = {"states": states, "transitions": trans, "traces_validated_against_impl": len(cases) + e2e["runs"] + rcov["traces_validated_against_impl"],
                "samples": [cases[len(cases) // 2]["script"]], "exhaustive": True, "scripts": n_scripts, "lassos": list(lassos), "desync": n_desync,
                "e2e_runs": e2e["runs"], "e2e_max_seen": e2e["maxSeen"],
                "rule": "all environment scripts of 5 events (1 worker, 2 peers) and 4 events (2 workers, 3 peers, per-peer limit 1) of TaskQueueScripts.tla; "
